@@ -112,7 +112,61 @@ func famSesLinger(t *testing.T, r *Rec) {
 				if (!needsRead || readHappened || then == "silence" || then == "shutdown" || then == "discard") && (last.states[0][0] != "closed" || closes != 1) {
 					r.Violate("C12", fmt.Sprintf("C12/graceful-close-not-completed/%s/%s", v.transport, then),
 						fmt.Sprintf("graceful close (buffered=%v) followed by %s: session is %s with %d close events", buffered, then, last.states[0][0], closes), g.lines)
+					if then == "silence" {
+						r.Violate("C07", fmt.Sprintf("C07/silent-peer-not-closed/closing-session/%s/proto=%d", v.transport, v.proto),
+							fmt.Sprintf("a session waiting to close gracefully (buffered=%v) whose peer stays silent is %s %d ms after the heartbeat deadline", buffered, last.states[0][0], 60), g.lines)
+					}
 				}
+			}
+		}
+	}
+	// a graceful close while an upgrade is in progress: what is buffered is delivered on the new transport before it is closed
+	for _, cand := range []string{"ws"} {
+		for _, probed := range []bool{true, false} {
+			lines := []string{fmt.Sprintf("ses cfg %d %d 1000 100000 default 1 1 - 0 -", 25000, 20000), "ses hs polling 4 0 -", "ses " + cand + " s0 4 0"}
+			if probed {
+				lines = append(lines, "ses frame 0 t 3270726f6265")
+			}
+			lines = append(lines, "ses send s0 t 6b657074 1 0 -", "ses close s0 0", "ses frame 0 t 35", "ses adv 10", "ses obs")
+			outs := sesRun(t, lines)
+			r.scenarios++
+			for i, l := range lines {
+				r.Op(l, outs[i])
+			}
+			r.Cover(fmt.Sprintf("linger/close-during-upgrade/%s/probed=%s", cand, b01(probed)))
+			got, closes, state := false, 0, ""
+			for _, out := range outs {
+				o := parseObs(out)
+				for _, e := range o.events {
+					if e.who == "s0" && e.name == "close" {
+						closes++
+					}
+				}
+				for _, frs := range o.frames {
+					for _, fr := range frs {
+						if string(fr.data) == "4kept" {
+							got = true
+						}
+					}
+				}
+				for _, rs := range o.resps {
+					if pk, err := decodeV4Payload(unhx(rs.body)); err == nil {
+						for _, p := range pk {
+							if p.typ == '4' && string(p.data) == "kept" {
+								got = true
+							}
+						}
+					}
+				}
+				if st, ok := o.states[0]; ok {
+					state = st[0]
+				}
+			}
+			if !got {
+				r.Violate("C12", "C12/buffered-data-lost/close-during-upgrade/probed="+b01(probed), "a message buffered when the session was closed gracefully during an upgrade never reached the client, on either transport", lines)
+			}
+			if state != "closed" || closes != 1 {
+				r.Violate("C12", "C12/graceful-close-not-completed/close-during-upgrade/probed="+b01(probed), fmt.Sprintf("session is %s with %d close events", state, closes), lines)
 			}
 		}
 	}
